@@ -479,7 +479,75 @@ def gcase_term(sid, pkg, objname, pydocs, result):
 
 
 GCASE_DEFS = [("UNM", "case_unmodelled"), ("STD", "mm_std"), ("STRICT", "mm_strict"), ("VAL", "mm_validate"),
-              ("EQ", "mm_equals")]
+              ("EQ", "mm_equals"), ("WT", "mm_wt"), ("SPEC", "mm_spec")]
+
+
+class Campaign:
+    """One batch of schemas + driver jobs + their evaluation in Coq: the common skeleton of the
+    generated-code checks.
+
+        camp = Campaign(ctx, "b0")
+        sid = camp.add_schema(schema, fmt)                 # or add_schema_text(pkg, fmt, text) for replays
+        camp.prepare()                                     # cog + driver build
+        camp.add_job(sid, "Root", pydocs, meta={...})      # only for sids in camp.batch.ok_sids()
+        camp.run()                                         # driver; fills camp.results
+        ev = camp.evaluate("cases_C13", "Model.GoSemChecks", [("MM_STD", "mm_std"), ...])
+        camp.job_payload(i)                                # replayable description of job i
+    """
+
+    def __init__(self, ctx, name, go_opts=None, closed=False):
+        self.ctx = ctx
+        self.batch = Batch(ctx, name, go_opts=go_opts)
+        self.closed = closed
+        self.jobs = []
+        self.results = []
+        self.texts = {}
+
+    def add_schema(self, schema, fmt):
+        text = srcgen.render(schema, fmt, closed=self.closed)
+        self.texts[schema["pkg"]] = text
+        return self.batch.add(schema, fmt, text=text)
+
+    def add_schema_text(self, pkg, fmt, text):
+        self.texts[pkg] = text
+        return self.batch.add({"pkg": pkg, "root": "Root", "defs": [], "fmt": fmt}, fmt, text=text)
+
+    def prepare(self):
+        self.batch.generate()
+        self.batch.build_driver()
+        return self.batch
+
+    def add_job(self, sid, objname, pydocs, meta=None):
+        self.jobs.append({"id": "j%d" % len(self.jobs), "sid": sid, "type": objname, "pydocs": list(pydocs),
+                          "docs": [srcgen.dumps(d) for d in pydocs], "meta": meta or {}})
+        return len(self.jobs) - 1
+
+    def run(self):
+        self.results = self.batch.run(self.jobs)
+        return self.results
+
+    def live(self):
+        """indices of jobs whose driver process survived"""
+        return [i for i, r in enumerate(self.results) if r is not None and r.get("known")]
+
+    def evaluate(self, name, imports, defs, shard=50):
+        idx = self.live()
+        cases = [(self.jobs[i]["sid"], gcase_term(self.jobs[i]["sid"], self.jobs[i]["sid"], self.jobs[i]["type"],
+                                                  self.jobs[i]["pydocs"], self.results[i])) for i in idx]
+        ev = eval_cases(self.ctx, name, imports, self.batch, cases, "gcase", defs, shard=shard)
+        return {k: [idx[x] for x in v] for k, v in ev.items()}
+
+    def job_payload(self, i):
+        j = self.jobs[i]
+        sid = j["sid"]
+        return {"fmt": self.batch.schemas[sid][1], "pkg": sid, "schema_text": self.texts[sid], "type": j["type"],
+                "docs": j["docs"], "meta": j["meta"]}
+
+    @staticmethod
+    def replay_jobs(path):
+        rp = json.load(open(path))
+        job = rp.get("job") or rp["first_mismatch"]["job"]
+        return [job]
 
 
 def coq_print(ctx, name, imports, batch, sids, body, timeout=600):
